@@ -258,3 +258,73 @@ func decoderPerLoop(ctx *core.Ctx, r *RT, rule string) {
 		ctx.Discharge(rule, "reader loops › no framing decoder", "", "no reader loop builds a TFramedTransport")
 	}
 }
+
+// sharedBufferBytes: Bytes() of a bytes.Buffer / TMemoryBuffer hands out the
+// buffer's backing array. Taken from a buffer that is a *field* of a
+// long-lived object (a transport, a client), the slice outlives the critical
+// section that filled it: the next call re-fills the same array while the
+// first caller's bytes are still on their way to the peer, so a request goes
+// out with another request's frame (and its caller completes with the answer
+// to that one). Every Bytes() in the runtime is taken from a buffer allocated
+// by the function that hands the bytes on — the one exception is the Bytes
+// method of a type that *is* the buffer (a wrapper returning its own storage).
+func sharedBufferBytes(ctx *core.Ctx, r *RT, rule string) {
+	n := 0
+	for _, fn := range r.Fns {
+		for _, c := range ssax.Calls(fn) {
+			if c.ShortName() != "Bytes" || len(c.Args()) == 0 {
+				continue
+			}
+			recv := c.Args()[0]
+			rt := recv.Type()
+			if !(ssax.TypeNamed(rt, "bytes", "Buffer") || ssax.TypeNamed(rt, "thrift", "TMemoryBuffer") || ssax.TypeNamed(rt, "", "TMemoryOutputBuffer")) {
+				continue
+			}
+			n++
+			// where does the buffer come from?
+			v := ssax.Strip(recv)
+			fromField := false
+			if u, ok := v.(*ssa.UnOp); ok {
+				if _, isFA := u.X.(*ssa.FieldAddr); isFA {
+					fromField = true
+				}
+			}
+			if fa, ok := v.(*ssa.FieldAddr); ok {
+				// &x.buf: the embedded buffer of x
+				fromField = true
+				// … unless this is the buffer type's own Bytes method returning its own storage
+				if fn.Name() == "Bytes" && fn.Signature.Recv() != nil && len(fn.Params) > 0 && ssax.Strip(fa.X) == ssa.Value(fn.Params[0]) {
+					fromField = false
+				}
+			}
+			if u, ok := v.(*ssa.UnOp); ok && fn.Name() == "Bytes" && fn.Signature.Recv() != nil && len(fn.Params) > 0 {
+				if fa, isFA := u.X.(*ssa.FieldAddr); isFA && ssax.Strip(fa.X) == ssa.Value(fn.Params[0]) {
+					fromField = false
+				}
+			}
+			if fromField && fn.Name() == "Bytes" && fn.Signature.Recv() != nil && len(fn.Params) > 0 {
+				// the storage accessor of a wrapper: whatever the nesting, the buffer belongs to the receiver
+				root := v
+				for i := 0; i < 6; i++ {
+					switch x := root.(type) {
+					case *ssa.UnOp:
+						root = ssax.Strip(x.X)
+						continue
+					case *ssa.FieldAddr:
+						root = ssax.Strip(x.X)
+						continue
+					}
+					break
+				}
+				if root == ssa.Value(fn.Params[0]) {
+					fromField = false
+				}
+			}
+			ctx.Check(!fromField, rule, ssax.Name(fn)+sprintf(" › Bytes() #%d is taken from a buffer of this call", callOrdinal(fn, c)), r.IPos(c.Instr), "the buffer is a local allocation (or the buffer type's own storage accessor)",
+				"the bytes handed on alias a buffer kept in a field of a long-lived object ("+ssax.AddrKey(recv)+"): the next call on the same object re-fills that storage while these bytes are still being transmitted — two calls in flight exchange frames, and a caller completes with the response to another call")
+		}
+	}
+	if n == 0 {
+		ctx.Discharge(rule, "runtime › no Bytes() call", "", "nothing to check")
+	}
+}
